@@ -83,6 +83,7 @@ def run(plan):
                 dev.state["fan"] = reported["fan_speed"] & 0x7F
                 dev.state["humidity"] = min(reported["target_humidity"], 127)
                 dev.state["turbo_report"] = plan.get("turbo_report", "both")
+                dev.state["spare"] = {"8": rr.randrange(256) & 0x1B, "9": rr.randrange(256) & 0xC7} if rr.random() < 0.6 else {}
                 o = await s.do({"op": "refresh"})
                 if o.kind != "ok" or not ac.online:
                     res.fail("refresh before the partial apply failed", repr(o))
@@ -116,6 +117,8 @@ def run(plan):
                         ac.target_temperature = int(st[k])        # whole degrees given as an int
                     elif k == "fan_speed" and plan.get("int_values") and st[k] not in (20, 40, 60, 80, 100, 102):
                         ac.fan_speed = float(st[k])               # the setter documents int | float
+                    elif k in ("aux_mode", "operational_mode", "swing_mode") and plan.get("int_values"):
+                        setattr(ac, k, int(st[k]))                # a plain number (restored from JSON / a config file)
                     else:
                         s.set_attr(ac, k, st[k])
             n0 = len(dev.controls)
